@@ -413,6 +413,9 @@ pub fn run(args: &Args, rep: &mut Report) {
             if !args.mine(job) {
                 continue;
             }
+            if rep.over_budget() {
+                return;
+            }
             if fam == "dense" && (p.fixed || p.size < 2) {
                 continue;
             }
